@@ -52,9 +52,30 @@ func (c19) Gen(r *Rng, tier string, emit func(string, Tok)) {
 		}
 		emit("both", scenario{kind: kind, optSize: opt, fault: -1, skipSpec: L(I(4), I(int64(r.Intn(1000)))), prsSpec: L(I(2), L(pids...)), data: data, ops: []int{3}}.tok())
 	}
+	c19LongRuns(r, tier, emit)
 }
 
 func (c19) Run(c Tok) Tok { return runScenario(scenarioOf(c)).observation() }
+
+// c19LongRuns: a skipper that rejects a PID whose packets come in one run of several thousand (one unit of one or two
+// payload bytes per packet), then everything (the whole stream skipped); the packets parser sees a unit of that size
+func c19LongRuns(r *Rng, tier string, emit func(string, Tok)) {
+	for _, np := range scaleList(tier, []int{4100}, []int{4095, 4096, 4097, 8200}) {
+		m := genRefStream(r, streamOpts{PESPIDs: 2, UnitsPerPID: 2, MaxPES: 200, Tables: true, LongUnit: np})
+		data := m.bytes()
+		long := m.PIDs[0]
+		for _, q := range m.PIDs {
+			if us := m.Units[q]; len(us) > 0 && us[0].Tiny {
+				long = q
+			}
+		}
+		for _, op := range []int{3, 4} {
+			emit("skip-long-run", scenario{kind: 1, optSize: 188, fault: -1, skipSpec: L(I(1), L(I(int64(long)))), data: data, ops: []int{op}}.tok())
+		}
+		emit("skip-everything", scenario{kind: 0, optSize: 188, fault: -1, skipSpec: L(I(5)), data: data, ops: []int{4, 1}}.tok())
+		emit("parser-long-unit", scenario{kind: 1, optSize: 188, fault: -1, prsSpec: L(I(2), L(I(int64(long)))), data: data, ops: []int{3}}.tok())
+	}
+}
 
 // skipDecision evaluates a skip specification on a raw 188-byte packet, independently of the library.
 func skipDecision(spec Tok, b []byte) bool {
